@@ -307,8 +307,17 @@ def config_sweep(prog: Program, rep: Report, rid: str = "R2.5") -> None:
                                 rep.check(ok, rid, f"store {sub.attr}", where,
                                           f"{sub.attr} is (re)assigned in {fi.qualname} from `{ast.unparse(val) if val is not None else 'del'}`: frames may carry an id/key other than the configured one",
                                           key=f"{rid}|{fi.qualname}|{sub.attr}")
-                    if isinstance(node, ast.Call) and ast.unparse(node.func) in ("setattr", "object.__setattr__"):
-                        rep.bad(rid, "setattr", f"{m.relpath}:{node.lineno} {fi.qualname}", "dynamic attribute store: configuration writers can no longer be enumerated")
+                    if isinstance(node, ast.Call) and ast.unparse(node.func) in ("setattr", "object.__setattr__") and len(node.args) >= 2:
+                        tgt_, nm_ = node.args[0], node.args[1]
+                        in_api = fi.cls is not None and any(k_.name == "SwitcherApi" for k_ in fi.cls.mro())
+                        on_own_self = isinstance(tgt_, ast.Name) and fi.params and tgt_.id == fi.params[0] and fi.cls is not None and not in_api
+                        if on_own_self:
+                            continue          # an object of another class setting its own attributes: not an API instance
+                        if isinstance(nm_, ast.Constant) and isinstance(nm_.value, str):
+                            if nm_.value in names:
+                                rep.bad(rid, f"setattr {nm_.value}", f"{m.relpath}:{node.lineno} {fi.qualname}", f"`{ast.unparse(node)[:70]}` re-assigns {nm_.value}: frames may carry an id/key other than the configured one", key=f"{rid}|{fi.qualname}|setattr|{nm_.value}")
+                            continue
+                        rep.undecided(rid, "setattr", f"{m.relpath}:{node.lineno} {fi.qualname}", f"`{ast.unparse(node)[:70]}`: an attribute store with a computed name on an object that may be an API instance: configuration writers can no longer be enumerated")
     for n, k in found.items():
         if k == 0:
             rep.undecided(rid, f"store {n}", "-", f"anchor vanished: no store of {n} found")
